@@ -254,4 +254,22 @@ def boxContains (g : Grid) (pts : List P3) : Bool := pts.all (inBounds g)
 /-- The points that fall into voxel `v`, in input order (`pts[inv == i]` of the `vectors`/`alphas` loop). -/
 def pointsIn (g : Grid) (pts : List P3) (v : I3) : List P3 := pts.filter fun p => decide (voxIdx g p = v)
 
+/-! ## cache state of a `Dotprops` object: the KD-tree and the point cloud it was built from -/
+
+/-- `points` = the current `_points`; `tree` = the cloud the cached `_tree` was built from (`none` = no tree / invalidated). -/
+structure DpState where
+  points : List P3
+  tree : Option (List P3)
+
+/-- `dp.points = B`.  `resets` = whether the setter clears `_tree` on every path (a fact re-extracted from the source). -/
+def setPoints (resets : Bool) (s : DpState) (B : List P3) : DpState := ⟨B, if resets then none else s.tree⟩
+
+/-- `dp.kdtree`: the cached tree if there is one, else a tree built from the current points (and cached). -/
+def touchTree (s : DpState) : DpState := match s.tree with
+  | some _ => s
+  | none => ⟨s.points, some s.points⟩
+
+/-- The cloud that `kdtree.query` searches (what `recalculate_tangents`, lazy `vect`/`alpha`, `sampling_resolution`, `snap` see). -/
+def queriedCloud (s : DpState) : List P3 := ((touchTree s).tree).getD s.points
+
 end Navis.Voxel
